@@ -91,6 +91,8 @@ type SpecFn struct {
 	Name   string
 	Params []string // sorts
 	Ret    string
+	PNames []string // recfn: parameter names
+	Body   *Expr    // recfn: defining equation, unfolded once per application term
 }
 
 func newDB() *DB {
@@ -134,7 +136,7 @@ func (db *DB) loadContractFile(path, pkgPath string) error {
 	keywords := map[string]bool{"func": true, "loop": true, "mode": true, "requires": true, "ensures": true, "invariant": true,
 		"modifies": true, "safety": true, "trusted": true, "ghost-entry": true, "pred": true, "ghost": true, "template": true,
 		"end": true, "iface": true, "functype": true, "decreases": true, "inline": true, "specfn": true, "axiom": true,
-		"split": true, "verify": true, "direct-read": true, "ghost-exit": true, "free-ensures": true, "free-requires": true, "lemma": true, "pure": true, "free-invariant": true}
+		"split": true, "verify": true, "direct-read": true, "ghost-exit": true, "recfn": true, "free-ensures": true, "free-requires": true, "lemma": true, "pure": true, "free-invariant": true}
 	for _, l := range strings.Split(string(raw), "\n") {
 		t := strings.TrimSpace(l)
 		if isGo {
@@ -394,6 +396,30 @@ func (db *DB) loadContractFile(path, pkgPath string) error {
 					sf.Params = append(sf.Params, ghostSort(p))
 				}
 			}
+			db.SpecFns[sf.Name] = sf
+		case "recfn":
+			// recfn name(a sort, b sort) sort := body
+			lr := strings.SplitN(rest, ":=", 2)
+			if len(lr) != 2 {
+				return fmt.Errorf("%s: bad recfn %q", path, rest)
+			}
+			head := strings.TrimSpace(lr[0])
+			i := strings.Index(head, "(")
+			j := strings.LastIndex(head, ")")
+			sf := &SpecFn{Name: strings.TrimSpace(head[:i]), Ret: ghostSort(head[j+1:])}
+			for _, p := range splitTop(head[i+1 : j]) {
+				f := strings.Fields(p)
+				if len(f) < 2 {
+					return fmt.Errorf("%s: recfn parameter needs a sort: %q", path, p)
+				}
+				sf.PNames = append(sf.PNames, f[0])
+				sf.Params = append(sf.Params, ghostSort(strings.Join(f[1:], " ")))
+			}
+			body, err := parse(lr[1])
+			if err != nil {
+				return err
+			}
+			sf.Body = body
 			db.SpecFns[sf.Name] = sf
 		case "axiom":
 			e, err := parse(rest)
